@@ -167,7 +167,9 @@ func (mq *MessageQueue) runQueue() {
 			// select picks at random; under simulation pending work goes first
 			select {
 			case <-mq.outgoingWork:
-				verifhook.Yield("messagequeue.beforeSendMessage", string(mq.p), mq.network)
+				if mq.verifHasBuilders() {
+					verifhook.Yield("messagequeue.beforeSendMessage", string(mq.p), mq.network)
+				}
 				mq.sendMessage()
 				continue
 			default:
@@ -175,7 +177,7 @@ func (mq *MessageQueue) runQueue() {
 		}
 		select {
 		case <-mq.outgoingWork:
-			if verifhook.Enabled {
+			if verifhook.Enabled && mq.verifHasBuilders() {
 				verifhook.Yield("messagequeue.beforeSendMessage", string(mq.p), mq.network)
 			}
 			mq.sendMessage()
@@ -209,6 +211,14 @@ func (mq *MessageQueue) runQueue() {
 			return
 		}
 	}
+}
+
+// verifHasBuilders tells the simulation hooks whether a wake-up has anything to
+// send (a second signal for an already extracted message has not).
+func (mq *MessageQueue) verifHasBuilders() bool {
+	mq.buildersLk.RLock()
+	defer mq.buildersLk.RUnlock()
+	return len(mq.builders) > 0
 }
 
 func (mq *MessageQueue) signalWork() {
